@@ -505,6 +505,11 @@ func cmdCheck(args []string) {
 			}
 		}
 		// translator validation: replay sampled passing paths natively
+		// (VX_REPLAYS, development: overrides the registered number of replays;
+		// with VX_SAMPLE_ALL=1 the sample is spread over every path)
+		if v, err := strconv.Atoi(os.Getenv("VX_REPLAYS")); err == nil && v > 0 && opts.Replays > 0 {
+			opts.Replays = v
+		}
 		if needNative && !h.NoNative && opts.Replays > 0 && len(st.Violations) == 0 {
 			if b, err := getBin(); err != nil {
 				inconclusive = append(inconclusive, h.Fn+": "+err.Error())
